@@ -8,6 +8,7 @@ CONSTANTS
   CutPoints = {}
   MaxOps = 11
   Splits = TRUE
+  S0Kinds = {"given"}
   HandOvers = {"inplace", "copygo", "copyc"}
   Emit = TRUE
 INVARIANTS Causal PureLabels Tiling SegmentLabels
